@@ -156,6 +156,11 @@ static StepRes run_step(const Op &op, const bytes &input, const bytes &key, cons
   if (op.level == "api")
   {
     pc.null_input = op.tamper == 9; // "the input file could not be opened": the operation gets a NULL stream and refuses
+    // a machine short of memory refuses one of the two big buffers of the operation (16 MiB per worker / 32 MiB in the
+    // production build): the chunk-buffer array (10) or the hash file buffer (11). The operation ends in std::bad_alloc
+    // (result -7) - in the history and in the fresh process alike; what matters is the steps that follow.
+    if (op.tamper == 10 || op.tamper == 11)
+      pc.fail_big = op.tamper - 9;
     wapi::OpOut o;
     if (op.kind == "enc")
       o = wapi::encrypt(input, k, bytes{'h', 'i', 's', 't', (uint8_t)('0' + (op.seedid & 3))}, op.cmode, op.hmode, pc);
@@ -163,7 +168,7 @@ static StepRes run_step(const Op &op, const bytes &input, const bytes &key, cons
       o = wapi::decrypt(input, k, pc);
     else
       o = wapi::verify(input, k, pc, false);
-    r.ret = o.ret ? 1 : 0;
+    r.ret = o.threw ? -7 : o.ret ? 1 : 0;
     r.out = o.out;
     return r;
   }
@@ -442,6 +447,12 @@ static Verdict run_c15(const Case &c)
   v.nontrivial = pipeline_runs >= 2 && fails_before_success >= 1;
   if (pipeline_runs >= 2)
     v.classes.push_back("pipeline_runs>=2");
+  for (int i = 0; i + 1 < n; i++)
+    if (A[i].ret == -7)
+    {
+      v.classes.push_back("steps_after_a_refused_big_allocation");
+      break;
+    }
   if (fails_before_success)
     v.classes.push_back("failing_op_before_succeeding_op");
   bool cli = false, api = false;
@@ -492,7 +503,9 @@ static Case gen_c15()
       o.pseed = g::u64() % 1000000;
       o.keyid = (int)g::range(0, 4);
       o.seedid = (int)g::range(0, 4);
-      kinds.push_back("file");
+      if (o.level == "api" && o.T >= 2 && wapi::has_scheduler() && g::coin(7))
+        o.tamper = g::coin(70) ? 10 : 11; // a big buffer is refused: this encryption ends in std::bad_alloc
+      kinds.push_back(o.tamper ? "none" : "file");
     }
     else
     {
@@ -507,6 +520,8 @@ static Case gen_c15()
       o.tamper = g::coin(30) ? (int)g::range(1, 5) : 0;
       if (o.level == "api" && g::coin(8))
         o.tamper = 9; // NULL input stream
+      else if (o.level == "api" && o.T >= 2 && wapi::has_scheduler() && g::coin(7))
+        o.tamper = (o.kind == "dec" && g::coin(70)) ? 10 : 11; // a big buffer is refused (std::bad_alloc)
       o.wrongkey = g::coin(20) ? (int)g::range(1, 3) : 0;
       o.keyid = (int)c.geti("keyid" + std::to_string(o.src), 0);
       kinds.push_back(o.kind == "dec" ? "plain" : "none");
@@ -531,6 +546,8 @@ static void fixed_c15(Ctx &ctx)
       {"enc,api,-1,0,0,1,0,2,32,100,1,0,0,k0", "dec,api,0,0,1,1,0,2,32,0,0,0,0,k0", "dec,api,0,0,0,1,0,2,32,0,0,0,0,k0", "ver,api,0,3,0,1,0,2,32,0,0,0,0,k0", "enc,api,-1,0,0,2,2,16,16,63,2,1,1,k0", "dec,api,4,0,0,2,2,16,16,0,0,1,0,k0", NULL},
       {"enc,cli,-1,0,0,3,1,4,64,255,3,0,0,k0", "ver,cli,0,0,0,3,1,4,64,0,0,0,0,k0", "dec,cli,0,1,0,3,1,4,64,0,0,0,0,k0", "dec,cli,0,0,0,3,1,4,64,0,0,0,0,k0", "enc,api,-1,0,0,4,0,3,48,96,4,2,1,k0", "dec,api,4,0,0,4,0,3,48,0,0,2,0,k0", NULL},
       {"enc,api,-1,0,0,0,0,1,16,0,5,0,0,k0", "dec,api,0,0,0,0,0,1,16,0,0,0,0,k0", "enc,api,-1,0,0,1,1,5,16,79,6,1,2,k0", "dec,api,2,2,0,1,1,5,16,0,0,1,0,k0", "dec,api,2,0,0,1,1,5,16,0,0,1,0,k0", "enc,cli,-1,0,0,2,2,4,32,31,7,0,0,k0", "dec,cli,5,0,0,2,2,4,32,0,0,0,0,k0", NULL},
+      // a refused big buffer (std::bad_alloc) in the middle of a history: the steps behind it must not notice
+      {"enc,api,-1,10,0,1,0,3,32,100,1,0,0,k0", "enc,api,-1,0,0,1,0,2,32,100,1,0,0,k0", "dec,api,1,0,0,1,0,2,32,0,0,0,0,k0", "dec,api,1,10,0,1,0,2,32,0,0,0,0,k0", "dec,api,1,11,0,1,0,2,32,0,0,0,0,k0", "dec,api,1,0,0,1,0,2,32,0,0,0,0,k0", "enc,api,-1,11,0,2,2,4,16,70,2,1,1,k0", NULL},
   };
   for (auto &h : hs)
   {
